@@ -20,7 +20,11 @@ import time
 import z3
 
 REPO = os.environ.get("PYVC_REPO", "/repo")
-OB_TIMEOUT_MS = int(os.environ.get("PYVC_OB_TIMEOUT_MS", "20000"))
+# Solver budgets.  The deciding budget is z3's deterministic resource limit (rlimit), so that a
+# verdict does not flip when the machine is loaded; the wall-clock timeout is only a backstop.
+OB_TIMEOUT_MS = int(os.environ.get("PYVC_OB_TIMEOUT_MS", "180000"))
+OB_RLIMIT = int(os.environ.get("PYVC_OB_RLIMIT", "40000000"))
+FEAS_RLIMIT = int(os.environ.get("PYVC_FEAS_RLIMIT", "4000000"))
 
 
 class PathEnd(Exception):
@@ -56,7 +60,7 @@ def set_cur(c):
 class Ctx:
     """One path of one symbolic run.  Re-created for each path; `prefix` replays decisions."""
 
-    FEAS_TIMEOUT_MS = 3000
+    FEAS_TIMEOUT_MS = 30000
     dry = False
     keep_smt = False
 
@@ -71,6 +75,7 @@ class Ctx:
         self._pool_seen = set()
         self.solver = z3.Solver()
         self.solver.set("timeout", self.FEAS_TIMEOUT_MS)
+        self.solver.set("rlimit", FEAS_RLIMIT)
         self.sig = []                # path signature parts (site, choice)
         self.pending = []            # sibling prefixes discovered on this path
         self.stats = stats
@@ -292,18 +297,21 @@ class Ctx:
             s = self.solver
             s.push()
             s.add(z3.Not(term))
-            s.set("timeout", OB_TIMEOUT_MS if kind != "canary" else 5000)
+            s.set("timeout", OB_TIMEOUT_MS if kind != "canary" else 20000)
+            s.set("rlimit", OB_RLIMIT if kind != "canary" else FEAS_RLIMIT)
             r1 = s.check()
             m1 = s.model() if r1 == z3.sat else None
             if self.keep_smt:
                 rec["smt"] = s.to_smt2()
             s.pop()
             s.set("timeout", self.FEAS_TIMEOUT_MS)
+            s.set("rlimit", FEAS_RLIMIT)
             r = r1
             rec["solver"] = "z3/qf+instances"
             if r1 != z3.unsat and kind != "canary" and (self.qfacts or r1 == z3.unknown):
                 s2 = z3.Solver()
                 s2.set("timeout", OB_TIMEOUT_MS)
+                s2.set("rlimit", OB_RLIMIT)
                 s2.add(*self.pc)
                 s2.add(*self.qfacts)
                 s2.add(z3.Not(term))
@@ -320,6 +328,24 @@ class Ctx:
                         rec["candidate"] = True      # satisfies every instance, full check unknown
                     else:
                         r = z3.unknown
+                        # stage 1 again on a fresh (non-incremental) solver: the incremental core answers
+                        # `unknown` on some sequence/array goals that the default tactic decides.  Same
+                        # meaning as stage 1: unsat => PROVED; sat => candidate counterexample (additive:
+                        # only reached when the verdict would have been UNDECIDED)
+                        s3 = z3.Solver()
+                        s3.set("timeout", OB_TIMEOUT_MS)
+                        s3.set("rlimit", OB_RLIMIT)
+                        s3.add(*self.pc)
+                        s3.add(z3.Not(term))
+                        r3 = s3.check()
+                        if r3 == z3.unsat:
+                            r = z3.unsat
+                            rec["solver"] = "z3/qf+instances(fresh)"
+                        elif r3 == z3.sat:
+                            r = z3.sat
+                            m1 = s3.model()
+                            rec["candidate"] = True
+                            rec["solver"] = "z3/qf+instances(fresh)"
             if r == z3.sat and m1 is not None:
                 rec["model"] = self.describe_model(m1)
             rec["verdict"] = "PROVED" if r == z3.unsat else "REFUTED" if r == z3.sat else "UNDECIDED"
